@@ -565,6 +565,11 @@ def check(program, rep):
     from .. import falsy
     rep.guard("C16-R2", falsy.rule, program, rep, "C16-R2", [MOD])
     rep.floor("C16-R2", 18)
+    # the slips that are visible wherever they occur (NAMELINK, FALSY, STALE,
+    # NOEFFECT, SLIPS - DESIGN.md 9.13-9.15), over the property's modules
+    from .. import namelink as _nl
+    rep.guard("C16-R5", _nl.rule, program, rep, "C16-R5",
+              ['rig.type_casts'], floor=0)
     return finish(rep, program, EXPLANATION, NOT_DECIDED,
                   trusted=["IEEE-754 double conversion of Python ints in the "
                            "checker's interpreter (float(int))",
